@@ -191,7 +191,8 @@ def predicted_outputs(model, RET, Q, solver):
 
 
 class MLemma:
-    def __init__(self, name, mode, fn, uses=(), timeout=60, tier="quick", models=None, tol=1e-4, ranges=False):
+    def __init__(self, name, mode, fn, uses=(), timeout=60, tier="quick", models=None, tol=1e-4, ranges=False, refute_only=False):
+        self.extra = {"refute_only": refute_only}
         self.name, self.mode, self.fn, self.uses = name, mode, fn, list(uses)
         self.timeout, self.tier = timeout, tier
         self.ranges = ranges
